@@ -105,6 +105,16 @@ def run(e: Engine, rep: Report):
     rep.errors += sub.errors
     rep.evaluations += sub.evaluations
     rep.functions |= sub.functions
+    from . import c16 as _c16
+    common.reuse(e, rep, _c16.p5, 'R2.13',
+                 '= C16-P5: what a policy hands back replaces the envelope '
+                 'only when it is non-empty (an empty result keeps the '
+                 'envelope: nothing written and `250` otherwise)',
+                 only={'P5'})
+    common.reuse(e, rep, _c16.p1, 'R2.14',
+                 '= C16-P1: every recipient accepted at RCPT is in exactly '
+                 'one of the envelopes a split produces (and so in one '
+                 'write the acknowledgement stands for)', only={'P1'})
     rep.floor('R2.1', 4, 'reply decision sites')
 
 
